@@ -167,7 +167,7 @@ def trace(ctx, kinds, plans):
 
 
 def common(ctx):
-    core.build_harness(ctx)
+    core.build_harness(ctx, "vh")
     ctx.level = "model_checking"
     core.vh(ctx, ["gadget-selftest"], timeout=600)
     ctx.assumptions += [
